@@ -107,6 +107,21 @@ def rhs_cases(inst, with_public):
         out.append(("hamsys.dH_dP", lambda Q=Q, P=P: _ints(hs.dH_dP(Q, P)), inst["dHdP"][i], x))
         if with_public:
             out.append(("hamsys.rhs", lambda xf=xf: _ints(hs.rhs(0.0, xf)), inst["rhs"][i], x))
+    if with_public and d >= 2:
+        # the same Hamiltonian in "large units": H_s(z) = H(z / S), S = 2^10.  Every coefficient of degree k is scaled by 2^(-10 k)
+        # (down to 2^-60 ~ 1e-18) and the point by S; powers of two commute with every floating operation, so S * rhs_s(S z) is
+        # rhs(z) BIT FOR BIT.  (A Hamiltonian is not required to be written in units in which its coefficients are O(1).)
+        S = 1024.0
+        blocks = pu.to_list(pu.from_tlc(inst["H"]), d)
+        for k, b in enumerate(blocks):
+            b *= S ** (-k)
+        hs_s = L.ham.create_hamiltonian_system(blocks, d, L.psi, L.clmo, L.enc, n_dof=3)
+        for i, x in enumerate(inst["pts"][:2]):
+            xs = np.array(x, dtype=np.float64) * S
+            out.append(("hamsys.rhs[large-units]", lambda xs=xs: _ints(np.asarray(hs_s.rhs(0.0, xs)) * S), inst["rhs"][i], x))
+            out.append(("hamsys.dH_dQ[large-units]", lambda xs=xs: _ints(np.asarray(hs_s.dH_dQ(xs[:3].copy(), xs[3:].copy())) * S), inst["dHdQ"][i], x))
+            out.append(("_hamiltonian_rhs[large-units]", lambda xs=xs: _ints(np.asarray(L.ham._hamiltonian_rhs(xs, hs_s.jac_H, hs_s.clmo_H, 3)) * S),
+                        inst["rhs"][i], x))
     return out
 
 
@@ -184,6 +199,22 @@ def event_fn():
             return y[1] - 0.03125
         _EVENT = ev
     return _EVENT
+
+
+_EVENT_T = None
+
+
+def event_fn_time():
+    """an event that depends EXPLICITLY on time (a moving section): the drivers must evaluate it at the time of the state they test"""
+    global _EVENT_T
+    if _EVENT_T is None:
+        L = lib()
+
+        @L.numba.njit("float64(float64, float64[:])", cache=False)
+        def ev(t, y):
+            return y[1] - 0.03125 * np.cos(2.0 * t)
+        _EVENT_T = ev
+    return _EVENT_T
 
 
 _NEVER = None
@@ -525,7 +556,11 @@ def twin_configs(v, rnd, quick):
         ngrid = 7 if adaptive else 9
         grid = np.linspace(0.0, -T if v["dir"] == "gridrev" else T, ngrid)
         cfgs.append({"y0": [sc * z for z in base[yi]], "grid": [float(x) for x in grid], "twin": tw,
-                     "rtol": [1e-6, 1e-10][ti], "atol": [1e-9, 1e-12][ti], "evdir": [0, 1, -1][(i + v["order"]) % 3]})
+                     "rtol": [1e-6, 1e-10][ti], "atol": [1e-9, 1e-12][ti], "evdir": [0, 1, -1][(i + v["order"]) % 3],
+                     "evkind": "state"})
+        if v["event"] and i == 0:
+            # the same problem with an explicitly time-dependent event (moving section), no direction filter
+            cfgs.append(dict(cfgs[-1], evkind="time", evdir=0))
     return cfgs
 
 
@@ -539,7 +574,7 @@ def run_path(v, cfg, path, systems, traced):
     system = L.dbase._DirectedSystem(base, -1) if v["dir"] == "directed" else base
     ev = None
     if v["event"]:
-        ev = event_fn()
+        ev = event_fn_time() if cfg.get("evkind") == "time" else event_fn()
     tr = Tracer(traced, cfg)
     try:
         wk = (v["family"], v["order"] if v["family"] == "adaptive" else 0, v["event"], v["dir"], path, id(base))
